@@ -1552,7 +1552,36 @@ fn run_range_differs_from_match_len(cmd: &[String], content: &str, node: (usize,
   end != want
 }
 
+/// An expansion (`expandStart` / `expandEnd`) is a sub-rule of the fix: a variable it shares with the
+/// rule stands for the code the rule bound (C04), so `expandEnd: {pattern: $A, stopBy: end}` reaches
+/// to the next sibling that REPEATS the matched element and to nothing else. Literal expectations.
+fn expansion_shares_variable(o: &mut Out) {
+  let Ok(dir) = tempfile::tempdir() else { return };
+  let rule = "id: dedupe\nlanguage: JavaScript\nrule: {pattern: $A, kind: number, inside: {kind: array}}\nfix:\n  template: $A\n  expandEnd: {pattern: $A, stopBy: end}\n";
+  std::fs::write(dir.path().join("rule.yml"), rule).unwrap();
+  // (file, text, expected replacementOffsets of the first finding)
+  let files = [("xs.js", "var xs = [7, 8, 9]\n", (10usize, 11usize)), ("ys.js", "var ys = [5, 6, 5]\n", (10, 17)), ("zs.js", "var zs = [1, 22, 1, 22]\n", (10, 18))];
+  for (f, t, _) in files {
+    std::fs::write(dir.path().join(f), t).unwrap();
+  }
+  let args: Vec<String> = ["scan", "-r", "rule.yml", "--json=stream", "xs.js", "ys.js", "zs.js"].iter().map(|s| s.to_string()).collect();
+  let (st, out) = run_cli(dir.path(), &args, 30);
+  let recs: Vec<Value> = out.lines().filter_map(|l| serde_json::from_str(l).ok()).collect();
+  let mut cases = 0usize;
+  for (f, t, want) in files {
+    cases += 1;
+    let first = recs.iter().filter(|r| r["file"].as_str() == Some(f)).min_by_key(|r| r["range"]["byteOffset"]["start"].as_u64().unwrap_or(0));
+    let got = first.map(|r| (r["replacementOffsets"]["start"].as_u64().unwrap_or(0) as usize, r["replacementOffsets"]["end"].as_u64().unwrap_or(0) as usize));
+    if st == "hang" || got != Some(want) {
+      o.oracle("c06_cli", false, json!({"fp": "expansion sharing a variable with the rule: the replaced range does not reach to the repetition of the matched element",
+        "rule": rule, "file": f, "text": t, "want": [want.0, want.1], "got": got.map(|g| vec![g.0, g.1])}));
+    }
+  }
+  o.oracle("c06_expansion_shared_variable", true, json!({"cases": cases}));
+}
+
 pub fn c06_cli(ctx: &Ctx, rng: &mut Rng, o: &mut Out) {
+  expansion_shares_variable(o);
   let n = if ctx.thorough { 2_000 } else { 150 };
   let mut cases = 0usize;
   let mut edits = 0usize;
